@@ -80,6 +80,22 @@ pub fn run(rec: &mut Recorder, w: &mut World, tier: &str, seed: u64) {
                 else if got != want { rec.fail("wrong-subset", format!("{}: loaded {} but the filter selects {} (full policy {})", descr, got, want, full)); }
                 if flag != bool_s(left_out) { rec.fail("wrong-is-filtered", format!("{}: is_filtered = {} but left_out = {}", descr, flag, left_out)); }
                 rec.count(if left_out { "filter:leaves-out" } else { "filter:keeps-all" });
+                // a further filtered load that FAILS (the file is gone) keeps the subset and must keep the guard
+                if flag == "true" && kind == "file" && rng.chance(1, 2) {
+                    rec.exec(w, "fs.unlink");
+                    let r3 = rec.exec(w, &format!("e.loadfc\t{}\t{}", enc_list(&fp), enc_list(&fg)));
+                    let got3 = rec.exec(w, "e.pol");
+                    let flag4 = rec.exec(w, "e.filtered");
+                    if r3 != "err" { rec.fail("failed-filtered-load-not-reported", format!("{}: load_filtered_policy with the file removed -> {}", descr, r3)); }
+                    if got3 != got { rec.fail("failed-filtered-load-changed-policy", format!("{}: after the failed second filtered load the enforcer holds {} (was {})", descr, got3, got)); }
+                    if flag4 != "true" { rec.fail("filtered-flag-lost", format!("{}: after a failed second filtered load is_filtered = {} although the enforcer still holds only the subset {}", descr, flag4, got3)); }
+                    let s = rec.exec(w, "e.save");
+                    if s != "panic" { rec.fail("filtered-save-allowed", format!("{}: after a failed second filtered load save_policy returned {}", descr, s)); }
+                    rec.count("failed-second-filtered-load");
+                    rec.count(&format!("adapter:{}", kind));
+                    rec.nontrivial_case(&descr);
+                    continue;
+                }
                 // a filtered enforcer can never overwrite the full store
                 if flag == "true" {
                     let s = rec.exec(w, "e.save");
